@@ -46,7 +46,7 @@ def wrapper_facts(tree, src, deco_name: str, recv: str):
              f"{recv}.last_op": ("last_op", "opk"),
              "eq:opk": ("opk_eqb", "fn"), "lt:opk": ("opk_ltb", "fn"), "le:opk": ("opk_leb", "fn"),
              "gt:opk": ("opk_gtb", "fn"), "ge:opk": ("opk_geb", "fn")},
-        calls={})
+        calls={}, helpers=py2v.module_helpers(tree))
     # s0: if <recv>.last_op == Operation.INIT: <recv> = <recv>._convert_leaf_to_cte(); <recv>.last_op = Operation.NO_OP
     if not isinstance(s0, ast.If) or s0.orelse:
         raise Untranslatable(f"{deco_name}: first statement is not the INIT `if`")
